@@ -1,0 +1,333 @@
+//go:build verif
+
+// Contracts for package packet, checked by /verif/engine (govc). Compiled only with the
+// build tag "verif". Spec functions state the ISO/IEC 13818-1 §2.4.3.2 header layout with
+// shifts and arithmetic, independently of the mask formulation used by the implementation.
+
+package packet
+
+import (
+	"github.com/Comcast/gots/v2"
+)
+
+// ---------------------------------------------------------------- C01: transport header fields
+
+func specTEI(p *Packet) bool  { return p[1]>>7 == 1 }
+func specPUSI(p *Packet) bool { return (p[1]>>6)%2 == 1 }
+func specPrio(p *Packet) bool { return (p[1]>>5)%2 == 1 }
+func specPID(p *Packet) int   { return int(p[1]%32)*256 + int(p[2]) }
+func specTSC(p *Packet) byte  { return p[3] >> 6 }
+func specAFC(p *Packet) byte  { return (p[3] >> 4) % 4 }
+func specCC(p *Packet) int    { return int(p[3] % 16) }
+
+// specSame(p, q, j, m): byte j of p and q agree outside the bits in m.
+func specSame(p *Packet, q Packet, j int, m byte) bool { return p[j]&^m == q[j]&^m }
+
+// specOnly(at, m, j): the mask of a field that occupies bits m of byte at.
+func specOnly(at int, m byte, j int) byte {
+	if j == at {
+		return m
+	}
+	return 0
+}
+
+func specMaskPID(j int) byte {
+	switch j {
+	case 1:
+		return 0x1f
+	case 2:
+		return 0xff
+	}
+	return 0
+}
+
+//@ func PayloadUnitStartIndicator(packet *Packet) bool
+//@   props C01
+//@   requires packet != nil
+//@   ensures result == specPUSI(packet)
+//@   modifies nothing
+
+//@ func Pid(packet *Packet) int
+//@   props C01
+//@   requires packet != nil
+//@   ensures result == specPID(packet)
+//@   modifies nothing
+
+//@ func ContainsPayload(packet *Packet) bool
+//@   props C01
+//@   requires packet != nil
+//@   ensures result == (specAFC(packet)%2 == 1)
+//@   modifies nothing
+
+//@ func ContainsAdaptationField(packet *Packet) bool
+//@   props C01
+//@   requires packet != nil
+//@   ensures result == (specAFC(packet)/2 == 1)
+//@   modifies nothing
+
+//@ func ContinuityCounter(packet *Packet) uint8
+//@   props C01
+//@   requires packet != nil
+//@   ensures int(result) == specCC(packet)
+//@   modifies nothing
+
+//@ func IsNull(packet *Packet) bool
+//@   props C01
+//@   requires packet != nil
+//@   ensures result == (specPID(packet) == 8191)
+//@   modifies nothing
+
+//@ func IsPat(packet *Packet) bool
+//@   props C01
+//@   requires packet != nil
+//@   ensures result == (specPID(packet) == 0)
+//@   modifies nothing
+
+//@ func increment4BitInt(cc uint8) uint8
+//@   props C01
+//@   ensures int(result) == (int(cc)+1)%16
+//@   modifies nothing
+
+//@ func IncrementCC(packet *Packet) *Packet
+//@   props C01
+//@   requires packet != nil
+//@   ensures result != nil && fresh(result)
+//@   ensures specCC(result) == (specCC(packet)+1)%16
+//@   ensures forall j in 0..188 :: specSame(result, *packet, j, specOnly(3, 0x0f, j))
+//@   ensures forall j in 0..188 :: packet[j] == old(*packet)[j]
+//@   modifies nothing
+
+//@ func ZeroCC(packet *Packet) *Packet
+//@   props C01
+//@   requires packet != nil
+//@   ensures result != nil && fresh(result)
+//@   ensures specCC(result) == 0
+//@   ensures forall j in 0..188 :: specSame(result, *packet, j, specOnly(3, 0x0f, j))
+//@   ensures forall j in 0..188 :: packet[j] == old(*packet)[j]
+//@   modifies nothing
+
+//@ func SetCC(packet *Packet, newCC uint8) *Packet
+//@   props C01
+//@   requires packet != nil
+//@   ensures result != nil && fresh(result)
+//@   ensures newCC <= 15 ==> specCC(result) == int(newCC)
+//@   ensures newCC <= 15 ==> forall j in 0..188 :: specSame(result, *packet, j, specOnly(3, 0x0f, j))
+//@   ensures forall j in 0..188 :: packet[j] == old(*packet)[j]
+//@   modifies nothing
+
+//@ func Equal(a *Packet, b *Packet) bool
+//@   props C01
+//@   ensures result == (a == b || (a != nil && b != nil && forall j in 0..188 :: a[j] == b[j]))
+//@   modifies nothing
+
+//@ func (p *Packet) Equals(r *Packet) bool
+//@   props C01
+//@   ensures result == (p == r || (p != nil && r != nil && forall j in 0..188 :: p[j] == r[j]))
+//@   modifies nothing
+
+//@ func New() *Packet
+//@   props C01
+//@   ensures result != nil && fresh(result)
+//@   ensures result[0] == 0x47 && specPID(result) == 8191 && result[3] == 0x10 && !specTEI(result) && !specPUSI(result) && !specPrio(result)
+//@   ensures forall j in 4..188 :: result[j] == 0
+//@   modifies nothing
+
+//@ func FromBytes(bytes []byte) (pkt *Packet, err error)
+//@   props C01
+//@   ensures len(bytes) != 188 ==> pkt == nil && err == gots.ErrInvalidPacketLength
+//@   ensures len(bytes) == 188 ==> pkt != nil && fresh(pkt) && forall j in 0..188 :: pkt[j] == bytes[j]
+//@   ensures len(bytes) == 188 ==> (err != nil) == (bytes[0] != 0x47 || bytes[3]>>6 == 1 || (bytes[3]>>4)%4 == 0)
+//@   modifies nothing
+
+//@ func (p *Packet) setBit(index int, mask byte, value bool)
+//@   props C01
+//@   requires p != nil && 0 <= index && index < 188
+//@   ensures value ==> p[index] == old(p[index])|mask
+//@   ensures !value ==> p[index] == old(p[index])&^mask
+//@   modifies p[index..index+1]
+
+//@ func (p *Packet) getBit(index int, mask byte) bool
+//@   props C01
+//@   requires p != nil && 0 <= index && index < 188
+//@   ensures result == (p[index]&mask != 0)
+//@   modifies nothing
+
+//@ func (p *Packet) syncByte() byte
+//@   props C01
+//@   requires p != nil
+//@   ensures result == p[0]
+//@   modifies nothing
+
+//@ func (p *Packet) SetTransportErrorIndicator(value bool)
+//@   props C01
+//@   requires p != nil
+//@   ensures specTEI(p) == value
+//@   ensures forall j in 0..188 :: specSame(p, old(*p), j, specOnly(1, 0x80, j))
+//@   modifies p[1..2]
+
+//@ func (p *Packet) TransportErrorIndicator() bool
+//@   props C01
+//@   requires p != nil
+//@   ensures result == specTEI(p)
+//@   modifies nothing
+
+//@ func (p *Packet) SetPayloadUnitStartIndicator(value bool)
+//@   props C01
+//@   requires p != nil
+//@   ensures specPUSI(p) == value
+//@   ensures forall j in 0..188 :: specSame(p, old(*p), j, specOnly(1, 0x40, j))
+//@   modifies p[1..2]
+
+//@ func (p *Packet) PayloadUnitStartIndicator() bool
+//@   props C01
+//@   requires p != nil
+//@   ensures result == specPUSI(p)
+//@   modifies nothing
+
+//@ func (p *Packet) SetTransportPriority(value bool)
+//@   props C01
+//@   requires p != nil
+//@   ensures specPrio(p) == value
+//@   ensures forall j in 0..188 :: specSame(p, old(*p), j, specOnly(1, 0x20, j))
+//@   modifies p[1..2]
+
+//@ func (p *Packet) TransportPriority() bool
+//@   props C01
+//@   requires p != nil
+//@   ensures result == specPrio(p)
+//@   modifies nothing
+
+//@ func (p *Packet) SetPID(pid int)
+//@   props C01
+//@   requires p != nil
+//@   ensures 0 <= pid && pid <= 8191 ==> specPID(p) == pid
+//@   ensures forall j in 0..188 :: specSame(p, old(*p), j, specMaskPID(j))
+//@   modifies p[1..3]
+
+//@ func (p *Packet) PID() int
+//@   props C01
+//@   requires p != nil
+//@   ensures result == specPID(p)
+//@   modifies nothing
+
+//@ func (p *Packet) SetTransportScramblingControl(value TransportScramblingControlOptions)
+//@   props C01
+//@   requires p != nil
+//@   ensures value <= 3 ==> specTSC(p) == byte(value)
+//@   ensures forall j in 0..188 :: specSame(p, old(*p), j, specOnly(3, 0xc0, j))
+//@   modifies p[3..4]
+
+//@ func (p *Packet) TransportScramblingControl() TransportScramblingControlOptions
+//@   props C01
+//@   requires p != nil
+//@   ensures byte(result) == specTSC(p)
+//@   modifies nothing
+
+//@ func (p *Packet) AdaptationFieldControl() AdaptationFieldControlOptions
+//@   props C01
+//@   requires p != nil
+//@   ensures byte(result) == specAFC(p)
+//@   modifies nothing
+
+//@ func (p *Packet) HasPayload() bool
+//@   props C01
+//@   requires p != nil
+//@   ensures result == (specAFC(p)%2 == 1)
+//@   modifies nothing
+
+//@ func (p *Packet) HasAdaptationField() bool
+//@   props C01
+//@   requires p != nil
+//@   ensures result == (specAFC(p)/2 == 1)
+//@   modifies nothing
+
+//@ func (p *Packet) SetContinuityCounter(value int)
+//@   props C01
+//@   requires p != nil
+//@   ensures 0 <= value && value <= 15 ==> specCC(p) == value
+//@   ensures specCC(p) == int(uint64(value)%16)
+//@   ensures forall j in 0..188 :: specSame(p, old(*p), j, specOnly(3, 0x0f, j))
+//@   modifies p[3..4]
+
+//@ func (p *Packet) ContinuityCounter() int
+//@   props C01
+//@   requires p != nil
+//@   ensures result == specCC(p)
+//@   modifies nothing
+
+//@ func (p *Packet) ZeroContinuityCounter()
+//@   props C01
+//@   requires p != nil
+//@   ensures specCC(p) == 0
+//@   ensures forall j in 0..188 :: specSame(p, old(*p), j, specOnly(3, 0x0f, j))
+//@   modifies p[3..4]
+
+//@ func (p *Packet) IncContinuityCounter()
+//@   props C01
+//@   requires p != nil
+//@   ensures specCC(p) == (old(specCC(p))+1)%16
+//@   ensures forall j in 0..188 :: specSame(p, old(*p), j, specOnly(3, 0x0f, j))
+//@   modifies p[3..4]
+
+//@ func (p *Packet) IsNull() bool
+//@   props C01
+//@   requires p != nil
+//@   ensures result == (specPID(p) == 8191)
+//@   modifies nothing
+
+//@ func (p *Packet) IsPAT() bool
+//@   props C01
+//@   requires p != nil
+//@   ensures result == (specPID(p) == 0)
+//@   modifies nothing
+
+//@ func (p *Packet) CheckErrors() error
+//@   props C01
+//@   requires p != nil
+//@   ensures p[0] != 0x47 ==> result == gots.ErrBadSyncByte
+//@   ensures p[0] == 0x47 && specTSC(p) == 1 ==> result == gots.ErrInvalidTSCFlag
+//@   ensures p[0] == 0x47 && specTSC(p) != 1 && specAFC(p) == 0 ==> result == gots.ErrInvalidAFCFlag
+//@   ensures (result != nil) == (p[0] != 0x47 || specTSC(p) == 1 || specAFC(p) == 0)
+//@   modifies nothing
+
+// Function-style and method-style accessors agree on every packet.
+func lemmaAccessorsAgree(p *Packet) bool {
+	return PayloadUnitStartIndicator(p) == p.PayloadUnitStartIndicator() &&
+		Pid(p) == p.PID() &&
+		ContainsPayload(p) == p.HasPayload() &&
+		ContainsAdaptationField(p) == p.HasAdaptationField() &&
+		int(ContinuityCounter(p)) == p.ContinuityCounter() &&
+		IsNull(p) == p.IsNull() &&
+		IsPat(p) == p.IsPAT()
+}
+
+//@ func lemmaAccessorsAgree(p *Packet) bool
+//@   props C01
+//@   requires p != nil
+//@   ensures result
+//@   modifies nothing
+
+// A setter followed by the matching getter returns the value set (in-range values).
+func lemmaSetGet(p *Packet, b bool, pid int, tsc TransportScramblingControlOptions, cc int) bool {
+	p.SetTransportErrorIndicator(b)
+	ok := p.TransportErrorIndicator() == b
+	p.SetPayloadUnitStartIndicator(b)
+	ok = ok && p.PayloadUnitStartIndicator() == b && PayloadUnitStartIndicator(p) == b
+	p.SetTransportPriority(b)
+	ok = ok && p.TransportPriority() == b
+	p.SetPID(pid)
+	ok = ok && p.PID() == pid && Pid(p) == pid
+	p.SetTransportScramblingControl(tsc)
+	ok = ok && p.TransportScramblingControl() == tsc
+	p.SetContinuityCounter(cc)
+	ok = ok && p.ContinuityCounter() == cc && int(ContinuityCounter(p)) == cc
+	return ok
+}
+
+//@ func lemmaSetGet(p *Packet, b bool, pid int, tsc TransportScramblingControlOptions, cc int) bool
+//@   props C01
+//@   requires p != nil && 0 <= pid && pid <= 8191 && tsc <= 3 && 0 <= cc && cc <= 15
+//@   ensures result
+//@   modifies *p
+
+var _ = gots.ErrNoPayload
